@@ -103,3 +103,71 @@ containment("_messages:_unpack_search_request", options=_PO, witness=_CH, witnes
                      # BOOLEAN: FALSE is the octet 00, TRUE any other octet (X.690 8.2.2)
                      "implies(len(content_of(v5)) == 1, result.types_only == (content_of(v5)[0] != 0))"])
 
+
+# ExtendedRequest: requestName, then a loop that takes [1] as requestValue (last one wins) and skips everything else
+_OV = "or_empty(value)"
+containment("_messages:_unpack_extended_request", options=_PO,
+            ensures=["result.message_id == message_id",
+                     "id_class(%s) == 2" % _V, "id_number(%s) == 0" % _V, "not id_constructed(%s)" % _V,
+                     "result.name == unutf8(%s)" % _C,
+                     "(result.value is None) == opt_none(rest_of(%s), 1, True)" % _V,
+                     "implies(result.value is not None, result.value == opt_val(rest_of(%s), 1, empty()))" % _V],
+            loops={0: dict(snapshot={"v0": "reader._view"},
+                           invariant=["opt_none(reader._view, 1, value is None) == opt_none(v0, 1, True)",
+                                      "opt_val(reader._view, 1, %s) == opt_val(v0, 1, empty())" % _OV],
+                           decreases="len(reader._view)")},
+            exit_hints=["v0 == rest_of(%s)" % _V])
+
+contract("specs.ldapmsg:lemma_nth_rest_step", requires=["k >= 0"], ensures=["nth_rest(s, k + 1) == rest_of(nth_rest(s, k))"], decreases="k")
+
+# LDAPResult (COMPONENTS OF: read from the enclosing reader): resultCode, matchedDN, diagnosticMessage, then referral [3] if it follows
+_E3 = _E(3)
+_HASREF = "(len(%s) > 0 and id_class(%s) == 2 and id_number(%s) == 3)" % (_E3, _E3, _E3)
+_REFC = "content_of(%s)" % _E3
+containment("_messages:_unpack_ldap_result", options=_PO, local_types={"referrals": "t.List[str]"},
+            witness={"v1": "reader_view_1", "v2": "reader_view_2", "v3": "reader_view_3"}, witness_sorts={"v1": "bytes", "v2": "bytes", "v3": "bytes"},
+            ensures=["v1 == rest_of(%s)" % _V, "v2 == rest_of(v1)", "v3 == rest_of(v2)",
+                     "result.result_code == tc(content_of(%s))" % _V,
+                     "result.matched_dn == unutf8(content_of(v1))", "result.diagnostics_message == unutf8(content_of(v2))",
+                     # referral [3] OPTIONAL: present exactly when the next element is context-tagged 3; then the reader has moved past it
+                     "(result.referrals is not None) == (len(v3) > 0 and id_class(v3) == 2 and id_number(v3) == 3)",
+                     "reader._view == (rest_of(v3) if (len(v3) > 0 and id_class(v3) == 2 and id_number(v3) == 3) else v3)",
+                     # ... and its URIs are the contents of the elements of the referral, in order
+                     "implies(result.referrals is not None, len(nth_rest(content_of(v3), len(result.referrals))) == 0)",
+                     "implies(result.referrals is not None, forall(q, 0, len(result.referrals), result.referrals[q] == unutf8(content_of(nth_rest(content_of(v3), q)))))"],
+            loops={0: dict(snapshot={"r0": "referral_reader._view"},
+                           invariant=["referral_reader._view == nth_rest(r0, len(referrals))",
+                                      "forall(q, 0, len(referrals), referrals[q] == unutf8(content_of(nth_rest(r0, q))))"],
+                           snapshot_each={"k0": "len(referrals)", "prev": "referrals"},
+                           body_hints=["lemma_nth_rest_step(r0, k0)", "len(referrals) == k0 + 1",
+                                       "forall(q, 0, k0, referrals[q] == prev[q])",
+                                       "referrals[k0] == unutf8(content_of(nth_rest(r0, k0)))"],
+                           decreases="len(referral_reader._view)")})
+
+# responses built on LDAPResult: the components of the result first (callee), then optional context-tagged components read by a
+# skipping loop (last one wins); v1 is the reader's view after the LDAPResult components
+def _opt_loop(specs):
+    inv, post = [], []
+    for local, num in specs:
+        inv += ["opt_none(reader._view, %d, %s is None) == opt_none(v0, %d, True)" % (num, local, num),
+                "opt_val(reader._view, %d, or_empty(%s)) == opt_val(v0, %d, empty())" % (num, local, num)]
+    return {0: dict(snapshot={"v0": "reader._view"}, invariant=inv, decreases="len(reader._view)")}
+
+
+_RES_DEC = ["result.result.result_code == tc(content_of(%s))" % _V,
+            "result.result.matched_dn == unutf8(content_of(rest_of(%s)))" % _V,
+            "result.result.diagnostics_message == unutf8(content_of(rest_of(rest_of(%s))))" % _V,
+            "(result.result.referrals is not None) == %s" % _HASREF]
+containment("_messages:_unpack_search_result_done", options=_PO, ensures=["result.message_id == message_id"] + _RES_DEC)
+containment("_messages:_unpack_bind_response", options=_PO, witness={"v1": "reader_view_1"}, witness_sorts={"v1": "bytes"},
+            ensures=["result.message_id == message_id"] + _RES_DEC + [
+                     "(result.server_sasl_creds is None) == opt_none(v1, 7, True)",
+                     "implies(result.server_sasl_creds is not None, result.server_sasl_creds == opt_val(v1, 7, empty()))"],
+            loops=_opt_loop([("sasl_creds", 7)]), exit_hints=["v0 == v1"])
+containment("_messages:_unpack_extended_response", options=_PO, witness={"v1": "reader_view_1"}, witness_sorts={"v1": "bytes"},
+            ensures=["result.message_id == message_id"] + _RES_DEC + [
+                     "(result.name is None) == opt_none(v1, 10, True)",
+                     "implies(result.name is not None, utf8(result.name) == opt_val(v1, 10, empty()))",
+                     "(result.value is None) == opt_none(v1, 11, True)",
+                     "implies(result.value is not None, result.value == opt_val(v1, 11, empty()))"],
+            loops=_opt_loop([("name", 10), ("value", 11)]), exit_hints=["v0 == v1"])
